@@ -866,3 +866,71 @@ func wirePaddingPrecedence(wc *wireCtx, r *Report, prop string) {
 		}
 	}
 }
+
+// */emitted-in-field-order: inside the loop over a packet's fields, wire statements go to one output.
+//
+// The emitted encoder/decoder performs its statements in the order they were appended, and that order has to be the order of the
+// fields (C01) with every derived statement - the back-patch of a length field, the checksum over "the bytes that precede it" -
+// at the position of the field it belongs to (C04, C06). An emitter that collects some per-field wire statements in a second
+// builder and flushes it after the loop reorders them against the statements of the following fields. Decided: in every
+// encode/decode emitter that loops over Packet.Fields, at most one builder that outlives the loop receives, inside the loop,
+// text that depends on a wire-determining input (byte order, scalar / prefix / length-field type, fixed length, padding).
+func wireFieldOrderEmission(wc *wireCtx, r *Report, prop string, dirs map[string]bool) {
+	rule := prop + "/emitted-in-field-order"
+	w := wc.m.w
+	wire := sLE | sSP | sAP | sFL | sTY | sLFT | sCS | sPC | sPL
+	n := 0
+	for _, l := range codecLangs {
+		seenFn := map[*ssa.Function]bool{}
+		for _, fn := range wc.anchors[l]["own"] {
+			if seenFn[fn] || !dirs[roleOf(fn)] {
+				continue
+			}
+			seenFn[fn] = true
+			loops := fieldLoops(fn)
+			if len(loops) == 0 {
+				continue
+			}
+			sites := wc.m.sitesOfX(fn, false)
+			for li, lp := range loops {
+				recv := map[*ssa.Alloc][]site{}
+				for _, s := range sites {
+					if !lp.blocks[s.instr.Block()] {
+						continue
+					}
+					c, ok := s.instr.(ssa.CallInstruction)
+					if !ok || len(c.Common().Args) == 0 {
+						continue
+					}
+					al, ok := valueRoot(c.Common().Args[0]).(*ssa.Alloc)
+					if !ok || lp.blocks[al.Block()] {
+						continue
+					}
+					if !strings.HasSuffix(types.TypeString(al.Type(), nil), "strings.Builder") && !strings.HasSuffix(types.TypeString(al.Type(), nil), "bytes.Buffer") {
+						continue
+					}
+					d, _ := wc.m.siteDeps(s, nil)
+					if d&wire == 0 {
+						continue
+					}
+					recv[al] = append(recv[al], s)
+				}
+				n++
+				key := fmt.Sprintf("%s %s field loop #%d: wire statements go to one output", l, fnKey(fn), li+1)
+				if len(recv) <= 1 {
+					r.pass(rule, key, w.pos(fn.Pos()), "")
+					continue
+				}
+				var where []string
+				for al, ss := range recv {
+					where = append(where, fmt.Sprintf("%s (e.g. at %s)", al.Comment, w.instrPos(ss[0].instr)))
+				}
+				sort.Strings(where)
+				r.fail(rule, key, w.pos(fn.Pos()), "inside the loop over the fields, wire-dependent text is appended to "+fmt.Sprint(len(recv))+" different builders that outlive the loop: "+strings.Join(where, "; ")+" - what is collected in the second one is emitted out of field order (a back-patch or checksum statement ends up after the statements of later fields)")
+			}
+		}
+	}
+	if n == 0 {
+		r.fail(rule, "field loops found", "internal/parser", "no encode/decode emitter loops over Packet.Fields")
+	}
+}
